@@ -67,7 +67,9 @@ func (e *Engine) facetList(st *State) ([]string, []*Term) {
 func (e *Engine) findViolations(st *State, bad *Term, label, msg string) (violated bool) {
 	tb := e.tb
 	spc := st.SPC
-	if spc == nil {
+	if spc == nil || st.SPCN > 20000 {
+		// very large merged schedule formulas are left out of the model query: the reported schedule is then the
+		// one recorded for the state (a genuine path to it), not one chosen by the solver
 		spc = tb.True
 	}
 	fnames, fterms := e.facetList(st)
